@@ -103,6 +103,7 @@ def register(reg):
                  ('none-maps-to-none', 'implies(pos is None, %s is None and %s is None)' % (LN, CN))]
                 + WALKER_INV + p2l_post('self', LN, CN, 'pos', 'pos is not None'),
         modifies=[('self._line_no_calc', make_calc_field)]))
+    c_p2l.arg_dependent_shapes = ('value',)      # the dictionary form (as_dict=True), which no call site inside the package asks for
     units['LatexWalker.pos_to_lineno_colno'] = FunctionUnit(c_p2l)
 
     # ---------------- LatexWalker.__init__ : offset defaults -----------------------------------------------
@@ -400,6 +401,26 @@ def register(reg):
     from pyvc.contracts import LemmaUnit
     units['tolerant-flag-reads'] = LemmaUnit('tolerant-flag-reads', lemma_flag_reads)
 
+    # ---------------- format_pos: the report text carries the line and the column whenever the error has them ------------------
+    def setup_fmt(it):
+        def some(name):
+            k = it.ctx.choose(3, name)
+            return None if k == 0 else (sym_int(it, name) if k == 1 else sym_str(it, name + '_text'))
+        return {'pos': some('pos'), 'lineno': some('lineno'), 'colno': (None if it.ctx.choose(2, 'colno') == 0 else sym_int(it, 'colno'))}
+    c_fmt = reg.add(Contract(
+        'pylatexenc.latexnodes._exctypes.format_pos', setup=setup_fmt, result_type='str',
+        ensures=[('line-and-column-are-both-reported-when-known-whatever-their-value',      # line 0 / column 0 included
+                  "implies(lineno is not None and colno is not None and not isinstance(lineno, str), "
+                  "result == '@ (line ' + str(lineno) + ', col ' + str(colno) + ')')"),
+                 ('a-line-alone-is-reported-as-such',
+                  "implies(lineno is not None and colno is None, result == ('@ ' + lineno if isinstance(lineno, str) else "
+                  "'@ line ' + str(lineno)))"),
+                 ('otherwise-the-position',
+                  "implies(lineno is None, result == ('@ <unknown>' if pos is None else ('@ ' + pos if isinstance(pos, str) else "
+                  "'@ char pos ' + str(pos))))")],
+        modifies=[]))
+    units['format_pos'] = FunctionUnit(c_fmt)
+
     for k in units:
         contracts.REPLAYERS[k] = replay_walker
     shared = ('check_tolerant_parsing_ignore_error', '_ParsingContext.__exit__', 'parse_content', 'tolerant-flag-reads')
@@ -451,6 +472,9 @@ def check_walker(s, offs):
                 return "parse error at pos %r of %r carries no line/column" % (e.pos, s)
             m = check_linecol(s, e.pos, e.lineno, e.colno, lo, fo, co, "parse error %r" % (e.msg,))
             if m: return m
+            if "@ (line %d, col %d)" % (e.lineno, e.colno) not in str(e):
+                return "the report of the parse error at pos %d of %r (offsets %r) does not show its line %d and column %d: %r" % (
+                    e.pos, s, (lo, fo, co), e.lineno, e.colno, str(e).splitlines()[0])
     except Exception:
         pass
 
